@@ -44,6 +44,8 @@ def search_second_scan(seed, want, limit):
 # found once with search_second_scan and re-validated by TLC on every run
 HARD_KEYS = {3: 'c7aec43b2d9d00679f41e98dce6c2ca3', 4: 'bbc7149f8dfd1e8b6143fda5742e9be9'}
 # keys for which the substituted letters include an 'a' (which maps to the digit 0), one per number of substituted digits
+# keys whose ciphertext has a decimal digit among the first hex characters although the second scan is needed (1, 2, 3 digits)
+HARD_KEYS_D = ['218b625f02ae7c99fb00fe44279e3071', '0ad6bb076d7a0b237673a73649710335', '6eff2aa14c209fa10096c24c11e9ab25']
 HARD_KEYS_A = ['cb0ac2249e718b9a4509fca984e80521', '26a1ced8ca857955107194d1d40d5426', 'a9527c7fe32612b4f200a420bbf3bcd8',
                '008a408bdfb201858a809703a6c8f641']
 
@@ -124,7 +126,7 @@ def run(rep, wd, tier, seed):
             found[want] = hit
     for want, khex in HARD_KEYS.items():
         found[want] = ('1234', '4000123456789010', 1, bytes.fromhex(khex))
-    extra = [('1234', '4000123456789010', 1, bytes.fromhex(kh)) for kh in HARD_KEYS_A]
+    extra = [('1234', '4000123456789010', 1, bytes.fromhex(kh)) for kh in HARD_KEYS_A + HARD_KEYS_D]
     for (pin, pan, idx, k) in extra:
         kind, out_ = call(lambda: pinblock.calculate_pvv(pin, k.hex(), idx, pan))
         ev.append(pev('pvv', pin, pan, idx=idx, key=k, kind=kind, out=pinc.safe_digits(out_) if kind == 'ok' else ()))
